@@ -16,12 +16,29 @@ from common import CACHE, ENV
 LOOP = "127.0.0.1"
 
 
+_port_lock = threading.Lock()
+_port_used = set()
+
+
 def free_port(kind=socket.SOCK_STREAM):
-    s = socket.socket(socket.AF_INET, kind)
-    s.bind((LOOP, 0))
-    p = s.getsockname()[1]
-    s.close()
-    return p
+    """a port below the ephemeral range (so that outgoing connections cannot take it before the proxy binds),
+    not handed out before by this process"""
+    import random
+    with _port_lock:
+        for _ in range(2000):
+            p = random.randint(15000, 32000)
+            if p in _port_used:
+                continue
+            s = socket.socket(socket.AF_INET, kind)
+            try:
+                s.bind((LOOP, p))
+            except OSError:
+                s.close()
+                continue
+            s.close()
+            _port_used.add(p)
+            return p
+    raise RuntimeError("no free port")
 
 
 def wait_listen(port, timeout=10.0):
